@@ -359,6 +359,11 @@ def execute(vc):
     f = vc.fn(TE + "asyncExecuteTasking")
     res = f(_NS(estimate_handle=est, target_handles=dict(tgts), sensor_handle_list=sens))
     ok = [c[0] for c in calls] == [10, 11, 12] and all(c[1] == "EST2" and c[2] is tgts[2] and c[3] == [tgts[1], tgts[3]] for c in calls)
+    # the store's insertion order is not the id order (targets added at run time, ids listed in any order): still exactly the OTHER targets
+    for order in ((3, 1, 2), (2, 3, 1), (3, 2, 1)):
+        del calls[:]
+        f(_NS(estimate_handle=est, target_handles={i: tgts[i] for i in order}, sensor_handle_list=sens[:1]))
+        ok = ok and len(calls) == 1 and calls[0][2] is tgts[2] and sorted(t.simulation_id for t in calls[0][3]) == [1, 3]
     vc.ensure("O-C02-execute.per-sensor", ok)
     vc.ensure("O-C02-execute.aggregation", res.target_id == 2 and res.observations == [f"obs{s}{x}" for s in (10, 11, 12) for x in "ab"]
               and res.missed_observations == [f"miss{s}" for s in (10, 11, 12)]
